@@ -12,7 +12,7 @@ structure LStream where
   seq : Nat
   frags : Chunks
   payload : Bytes
-deriving Repr
+deriving Repr, DecidableEq
 
 def LStream.init (seq : Nat) : LStream := { seq := seq, frags := [], payload := [] }
 
